@@ -469,3 +469,27 @@ func startupFunc(name string) bool {
 	}
 	return short == "main" || short == "init" || strings.HasPrefix(short, "init#")
 }
+
+// guardedAccessors lists the repository functions that take the address of a field declared guarded.
+func (p *Prog) guardedAccessors() map[string][]string {
+	out := map[string][]string{}
+	for fn := range ssautil.AllFunctions(p.SSA) {
+		if !isRepoFunc(fn) || len(fn.Blocks) == 0 || fn.Synthetic != "" {
+			continue
+		}
+		for _, b := range fn.Blocks {
+			for _, in := range b.Instrs {
+				fa, ok := in.(*ssa.FieldAddr)
+				if !ok {
+					continue
+				}
+				k := staticKey(fa)
+				if _, g := p.guarded[k]; g {
+					// an object created by this very function is not shared yet (staticKey gives "" for those)
+					out[k] = append(out[k], fn.String())
+				}
+			}
+		}
+	}
+	return out
+}
